@@ -77,7 +77,7 @@ package interpreter
 //@   nofail
 //@   env MemoryMeteringError ComputationMeteringError
 //@   modifies ghost("metered")
-//@   ensures[C11] kind(result) == IntValue && num(result) == -num(v) && valid(result)
+//@   ensures[C11] kind(result) == IntValue && num(result.(IntValue)) == -num(v) && valid(result)
 //@   ensures[C32] context != nil ==> ghost("metered") >= 8 * words(num(result))
 //@ func (UIntValue).compare
 //@   requires valid(v) && valid(o)
@@ -195,3 +195,54 @@ package interpreter
 //@ func (UFix128Value).ToBigInt
 //@   nofail
 //@   ensures[C16] fresh(result) && big(result) == num(v)
+
+// ---- Fix64 arithmetic (C15, C13, C18): num(v) is the raw scaled integer (value * 10^8)
+//@ func NewFix64Value
+//@   inline
+//@ func NewUnmeteredFix64Value
+//@   inline
+//@ schema binop_checked(T=Fix64Value, M=Plus, E=a + b, DZ=false, min=-pow2(63), max=pow2(63)-1, P=C15, MEM=true, LEM=true)
+//@ schema binop_checked(T=Fix64Value, M=Minus, E=a - b, DZ=false, min=-pow2(63), max=pow2(63)-1, P=C15, MEM=true, LEM=true)
+//@ schema binop_checked(T=Fix64Value, M=Mul, E=tdiv(a * b, 100000000), DZ=false, min=-pow2(63), max=pow2(63)-1, P=C15, MEM=true, LEM=true)
+//@ schema binop_checked(T=Fix64Value, M=Div, E=tdiv(a * 100000000, b), DZ=b == 0, min=-pow2(63), max=pow2(63)-1, P=C15, MEM=true, LEM=true)
+//@ schema negate_checked(T=Fix64Value, min=-pow2(63), max=pow2(63)-1, P=C15, MEM=true, LEM=true)
+//@ schema binop_sat(T=Fix64Value, M=SaturatingPlus, E=a + b, DZ=false, min=-pow2(63), max=pow2(63)-1, P=C13, MEM=true, LEM=true)
+//@ schema binop_sat(T=Fix64Value, M=SaturatingMinus, E=a - b, DZ=false, min=-pow2(63), max=pow2(63)-1, P=C13, MEM=true, LEM=true)
+//@ schema binop_sat(T=Fix64Value, M=SaturatingMul, E=tdiv(a * b, 100000000), DZ=false, min=-pow2(63), max=pow2(63)-1, P=C13, MEM=true, LEM=true)
+//@ schema binop_sat(T=Fix64Value, M=SaturatingDiv, E=tdiv(a * 100000000, b), DZ=b == 0, min=-pow2(63), max=pow2(63)-1, P=C13, MEM=true, LEM=true)
+//@ schema cmp(T=Fix64Value, P=C18)
+// a % b = a - trunc(a/b)*b; it may fail only when the quotient a/b is out of range
+//@ func (Fix64Value).Mod
+//@   requires other != nil
+//@   let a = num(v)
+//@   let b = num(other.(Fix64Value))
+//@   let q = tdiv(a * 100000000, b)
+//@   fails kind(other) != Fix64Value => InvalidOperandsError
+//@   fails[C15] kind(other) == Fix64Value && b == 0 => DivisionByZeroError
+//@   fails[C15] kind(other) == Fix64Value && b != 0 && (q > pow2(63)-1 || q < -pow2(63)) => OverflowError|UnderflowError
+//@   ensures[C15] kind(result) == Fix64Value && num(result.(Fix64Value)) == a - tdiv(q, 100000000) * b
+//@   env MemoryMeteringError
+//@   modifies ghost("metered")
+
+// ---- UFix64 arithmetic (C15, C13, C18): wrappers over values.UFix64Value
+//@ typenum UFix64Value: self.UFix64Value
+//@ func handleFix64Error
+//@   inline
+//@ schema binop_checked(T=UFix64Value, M=Plus, E=a + b, DZ=false, min=0, max=pow2(64)-1, P=C15, MEM=true, LEM=true)
+//@ schema binop_checked(T=UFix64Value, M=Minus, E=a - b, DZ=false, min=0, max=pow2(64)-1, P=C15, MEM=true, LEM=true)
+//@ schema binop_checked(T=UFix64Value, M=Mul, E=ediv(a * b, 100000000), DZ=false, min=0, max=pow2(64)-1, P=C15, MEM=true, LEM=true)
+//@ schema binop_checked(T=UFix64Value, M=Div, E=ediv(a * 100000000, b), DZ=b == 0, min=0, max=pow2(64)-1, P=C15, MEM=true, LEM=true)
+//@ schema binop_sat(T=UFix64Value, M=SaturatingPlus, E=a + b, DZ=false, min=0, max=pow2(64)-1, P=C13, MEM=true, LEM=true)
+//@ schema binop_sat(T=UFix64Value, M=SaturatingMinus, E=a - b, DZ=false, min=0, max=pow2(64)-1, P=C13, MEM=true, LEM=true)
+//@ schema binop_sat(T=UFix64Value, M=SaturatingMul, E=ediv(a * b, 100000000), DZ=false, min=0, max=pow2(64)-1, P=C13, MEM=true, LEM=true)
+//@ func (UFix64Value).Mod
+//@   requires other != nil
+//@   let a = num(v)
+//@   let b = num(other.(UFix64Value))
+//@   let q = ediv(a * 100000000, b)
+//@   fails kind(other) != UFix64Value => InvalidOperandsError
+//@   fails[C15] kind(other) == UFix64Value && b == 0 => DivisionByZeroError
+//@   fails[C15] kind(other) == UFix64Value && b != 0 && q > pow2(64)-1 => OverflowError|UnderflowError
+//@   ensures[C15] kind(result) == UFix64Value && num(result.(UFix64Value)) == a - ediv(q, 100000000) * b
+//@   env MemoryMeteringError
+//@   modifies ghost("metered")
